@@ -510,8 +510,10 @@ func (fc *funcContext) translateExpr(expr ast.Expr) *expression {
 				X:    e.X,
 			}
 			astutil.SetType(fc.pkgCtx.Info.Info, t.Elem(), x)
-			e.X = x
-			return fc.translateExpr(e)
+			// Indexing through a nil array pointer must panic: the nilCheck getter of
+			// the nil pointer raises the error, as in the assignment form.
+			pattern := rangeCheck("%1e[%2f]", fc.pkgCtx.Types[e.Index].Value != nil, true)
+			return fc.formatExpr("(%1e.nilCheck, "+pattern+")", x, e.Index)
 		case *types.Array:
 			pattern := rangeCheck("%1e[%2f]", fc.pkgCtx.Types[e.Index].Value != nil, true)
 			return fc.formatExpr(pattern, e.X, e.Index)
